@@ -8,6 +8,7 @@ import (
 	"path/filepath"
 	"sort"
 	"strconv"
+	"strings"
 	"time"
 
 	wt "github.com/hnakamur/whispertool"
@@ -34,7 +35,7 @@ func (c11) Meta() fw.Meta {
 			"the oracle uses the per-item clock printed by the commands",
 			"behaviour of sum-diff for a missing destination is not specified by the property (only C16 applies)",
 		},
-		Obligations: []string{"sumcopy_runs", "dest_created", "dest_slots_compared", "sumdiff_clean_after_copy", "sumdiff_detects_perturbation", "sumdiff_records_checked", "perturbed_item_not_last", "coarser_agree_finer_differ", "single_archive_selection", "past_window", "window_beyond_finest_retention", "slow_first_item_runs", "one_ulp_perturbations", "sumdiff_listing_to_file", "sumdiff_with_an_item_without_sources"},
+		Obligations: []string{"sumcopy_runs", "dest_created", "dest_slots_compared", "sumdiff_clean_after_copy", "sumdiff_detects_perturbation", "sumdiff_records_checked", "perturbed_item_not_last", "coarser_agree_finer_differ", "single_archive_selection", "past_window", "window_beyond_finest_retention", "slow_first_item_runs", "one_ulp_perturbations", "sumdiff_listing_to_file", "sumdiff_with_an_item_without_sources", "runs_with_sources_on_a_server", "order_sensitive_item_first_file_read_last"},
 		Workers:     12,
 	}
 }
@@ -148,8 +149,23 @@ func (c11) Run(c *fw.Ctx) {
 	_ = itemPat
 	wrote, kept := int64(0), int64(0)
 	itemNow := map[string]int64{}
+	// every 4th case reads the sources through a real server (nested items included): the served directory holds a link
+	// to the source tree, and the destination base holds a link of the same name to itself so that paths coincide
+	srcArg, itemPrefix := srcBase, ""
+	if c.Index%4 == 1 {
+		if u, served, ok := workerServer(c); ok {
+			name := fmt.Sprintf("c11-%d", c.Index)
+			os.Symlink(srcBase, filepath.Join(served, name))
+			defer os.Remove(filepath.Join(served, name))
+			mustMkdir(destBase)
+			os.Symlink(destBase, filepath.Join(destBase, name))
+			srcArg, itemPrefix = u, name+"/"
+			c.Count("runs_with_sources_on_a_server", 1)
+		}
+	}
+	norm := func(reported string) string { return strings.TrimPrefix(reported, dotted(itemPrefix)) }
 	for _, pat := range pats {
-		args := win([]string{"sum-copy", "-src-base", srcBase, "-item", pat, "-src", "*.wsp", "-dest-base", destBase, "-dest", "sum.wsp",
+		args := win([]string{"sum-copy", "-src-base", srcArg, "-item", itemPrefix + pat, "-src", "*.wsp", "-dest-base", destBase, "-dest", "sum.wsp",
 			"-agg-method", model.MethodNames[l.Method], "-x-files-factor", strconv.FormatFloat(float64(l.Xff), 'g', -1, 32), "-retentions", l.RetentionString(), "-archive", strconv.Itoa(sel)})
 		pre := map[string][]*wt.TimeSeries{}
 		if pat == "grp*" && window == "default" && c.Index%3 == 2 {
@@ -179,6 +195,13 @@ func (c11) Run(c *fw.Ctx) {
 				}
 			}
 		}
+		if pat == "grp*" && c.Index%2 == 0 {
+			// the first file of the order-sensitive item (values 1, 1e17, -1e17) is locked for a moment: it is read last
+			if hold, err := wt.Open(filepath.Join(srcBase, "grpF", tree.Items["grpF"][0])); err == nil {
+				go func() { time.Sleep(300 * time.Millisecond); hold.Close() }()
+				c.Count("order_sensitive_item_first_file_read_last", 1)
+			}
+		}
 		res := runCLI(c, args...)
 		det := fw.J{"scenario": sc, "run": res.brief()}
 		c.Count("sumcopy_runs", 1)
@@ -199,7 +222,7 @@ func (c11) Run(c *fw.Ctx) {
 		for _, nl := range out.Nows {
 			var it string
 			for _, cand := range items {
-				if dotted(cand) == nl.Name {
+				if dotted(cand) == norm(nl.Name) {
 					it = cand
 				}
 			}
@@ -256,7 +279,7 @@ func (c11) Run(c *fw.Ctx) {
 	}
 	// ---- sum-diff right after is clean
 	for _, pat := range pats {
-		args := win([]string{"sum-diff", "-src-base", srcBase, "-item", pat, "-src", "*.wsp", "-dest-base", destBase, "-dest", "sum.wsp", "-archive", strconv.Itoa(sel)})
+		args := win([]string{"sum-diff", "-src-base", srcArg, "-item", itemPrefix + pat, "-src", "*.wsp", "-dest-base", destBase, "-dest", "sum.wsp", "-archive", strconv.Itoa(sel)})
 		res := runCLI(c, args...)
 		if cliPanicked(res) || res.Exit != 0 {
 			c.Violationf("sumdiff-after-sumcopy-not-clean", fw.J{"scenario": sc, "run": res.brief()}, "sum-diff right after sum-copy over the same window exited %d", res.Exit)
@@ -317,7 +340,7 @@ func (c11) Run(c *fw.Ctx) {
 		db.Sync()
 		db.Close()
 	}
-	args := win([]string{"sum-diff", "-src-base", srcBase, "-item", "grp*", "-src", "*.wsp", "-dest-base", destBase, "-dest", "sum.wsp", "-archive", strconv.Itoa(sel)})
+	args := win([]string{"sum-diff", "-src-base", srcArg, "-item", itemPrefix + "grp*", "-src", "*.wsp", "-dest-base", destBase, "-dest", "sum.wsp", "-archive", strconv.Itoa(sel)})
 	listFile := ""
 	if c.Index%2 == 1 {
 		// the listing goes to a file: it must be complete there, also when differences are found
@@ -342,7 +365,7 @@ func (c11) Run(c *fw.Ctx) {
 	anyDiff := false
 	for ii, nl := range out.Nows {
 		it := grp[ii]
-		if nl.Name != dotted(it) {
+		if norm(nl.Name) != dotted(it) {
 			c.Violationf("sumdiff-items", det, "item %d reported as %q, want %q", ii, nl.Name, dotted(it))
 			return
 		}
@@ -398,7 +421,7 @@ func (c11) Run(c *fw.Ctx) {
 		for _, n := range tree.Items[gone] {
 			os.Remove(filepath.Join(srcBase, gone, n))
 		}
-		args := win([]string{"sum-diff", "-src-base", srcBase, "-item", "grp*", "-src", "*.wsp", "-dest-base", destBase, "-dest", "sum.wsp", "-archive", strconv.Itoa(sel)})
+		args := win([]string{"sum-diff", "-src-base", srcArg, "-item", itemPrefix + "grp*", "-src", "*.wsp", "-dest-base", destBase, "-dest", "sum.wsp", "-archive", strconv.Itoa(sel)})
 		res := runCLI(c, args...)
 		det := fw.J{"scenario": sc, "run": res.brief(), "perturbed_item": victim, "item_without_sources": gone}
 		c.Count("sumdiff_with_an_item_without_sources", 1)
@@ -413,7 +436,7 @@ func (c11) Run(c *fw.Ctx) {
 		out := parseOutput(res.Stdout)
 		found := false
 		for ii, nl := range out.Nows {
-			if nl.Name != dotted(victim) {
+			if norm(nl.Name) != dotted(victim) {
 				continue
 			}
 			found = true
